@@ -129,6 +129,11 @@ def catalogue(cfg, iso, sh, rng):
     # --- El Torito present: refusals that depend on the boot state
     if iso.eltorito_boot_catalog is not None:
         yield 'add_isohybrid', 'bad-geometry', EARLY, lambda: iso.add_isohybrid(geometry_sectors=0)
+        yield 'add_isohybrid', 'part-entry-0', EARLY, lambda: iso.add_isohybrid(part_entry=0)
+        yield 'add_isohybrid', 'part-entry-5', EARLY, lambda: iso.add_isohybrid(part_entry=5)
+        if sum(len(sec.section_entries) for sec in iso.eltorito_boot_catalog.sections if sec.platform_id == 0xef) >= 2:
+            yield 'add_isohybrid', 'part-entry-2-is-the-efi-slot', EARLY, lambda: iso.add_isohybrid(part_entry=2, efi=True)
+            yield 'add_isohybrid', 'part-entry-3-is-the-mac-slot', EARLY, lambda: iso.add_isohybrid(part_entry=3, efi=True, mac=True)
         if not any(sec.platform_id == 0xef and sec.section_entries for sec in iso.eltorito_boot_catalog.sections):
             yield 'add_isohybrid', 'efi-without-efi-entry', EARLY, lambda: iso.add_isohybrid(efi=True)
             yield 'add_isohybrid', 'mac-without-efi-entries', EARLY, lambda: iso.add_isohybrid(mac=True)
